@@ -136,7 +136,7 @@ def gen_hierarchy(rng):
                 ps = sorted(set(ps + [rng.choice(tids)]))
             if rng.random() < 0.1:
                 ps = ["g%d" % g]                            # an exon directly under the gene
-            attrs = ([["ID", ["e%d" % eid]]] if rng.random() < 0.92 else []) + [["Parent", ps]]
+            attrs = ([["ID", ["x%d" % eid]]] if rng.random() < 0.92 else []) + [["Parent", ps]]
             if rng.random() < 0.7:
                 attrs.append(["exon_number", [rng.choice([str(x + 1), str(x + 1), "10", "a"])]])
             feats.append(imp.mkfeat(seqid=rng.choice(["chr1"] * 9 + ["chr2"]), source="src", type_="exon", s=s, e=e,
@@ -267,6 +267,10 @@ def run_impl(c):
         except Exception as ex:
             return {"introns": ["err", "Other"], "sites": ["err", "Other"], "import": L.err_class(ex)}
         before = imp.dump_tables(db.conn)
+        # somebody looks at the exons in transcription order first (descending start on the minus strand): what one query
+        # was given does not change how a later one sorts
+        for f in list(db.features_of_type("mRNA"))[:2]:
+            list(db.children(f, level=1, featuretype="exon", order_by="start", reverse=True))
         kw = dict(merge_attributes=c["merge"], numeric_sort=c["numeric"])
         if c["via"] == "parent":
             kw.update(grandparent_featuretype=None, parent_featuretype="mRNA")
@@ -287,7 +291,7 @@ def run_impl(c):
         lines.append("chr1\tsrc\tmRNA\t%d\t%d\t.\t%s\t.\tID=t%d;Parent=g1" % (lo, hi, t["strand"], ti))
         for x in t["exons"]:
             n += 1
-            lines.append("chr1\tsrc\texon\t%d\t%d\t.\t%s\t.\tID=e%d;Parent=t%d;exon_number=%s" % (x["s"], x["e"], t["strand"], n, ti, x["num"]))
+            lines.append("chr1\tsrc\texon\t%d\t%d\t.\t%s\t.\tID=x%d;Parent=t%d;exon_number=%s" % (x["s"], x["e"], t["strand"], n, ti, x["num"]))
     db = gffutils.create_db("\n".join(lines) + "\n", ":memory:", from_string=True)
     before = imp.dump_tables(db.conn)
     kw = dict(merge_attributes=c["merge"], numeric_sort=c["numeric"])
@@ -327,8 +331,8 @@ def coq_case(c, o):
         for x in t["exons"]:
             n += 1
             f = imp.mkfeat(seqid="chr1", source="src", type_="exon", s=x["s"], e=x["e"], strand=t["strand"],
-                           attrs=[["ID", ["e%d" % n]], ["Parent", ["t%d" % ti]], ["exon_number", [x["num"]]]])
-            ex.append(imp.coq_row(f, "e%d" % n))
+                           attrs=[["ID", ["x%d" % n]], ["Parent", ["t%d" % ti]], ["exon_number", [x["num"]]]])
+            ex.append(imp.coq_row(f, "x%d" % n))
         ts.append("(%s, %s)" % (L.s(t["strand"]), L.lst(ex, "row")))
     return "CIntrons %s %s %s %s %s" % (L.b(c["merge"]), L.b(c["numeric"]), L.lst(ts, "(str * list row)"), coq_rows(o["introns"]),
                                         coq_rows(o["sites"]))
